@@ -871,3 +871,112 @@ fn c20_keyword_vocabulary() {
     assert!(n >= 1, "W: tables not empty");
     kani::cover!(n >= 20, "W: at least 20 offered words checked");
 }
+
+// ---------------------------------------------------------------------------
+// non-ASCII text: the L0 cursor contract (inside the text, on a char boundary, progress,
+// Error => message) for tokens that start with or contain multi-byte characters.
+// First character(s) concrete (so that the dispatch folds), then two symbols of a menu.
+
+fn menu_sym(s: u8) -> ([u8; 4], usize) {
+    match s {
+        0 => ([b'a', 0, 0, 0], 1),
+        1 => ([b' ', 0, 0, 0], 1),
+        2 => ([b'\n', 0, 0, 0], 1),
+        3 => ([b'"', 0, 0, 0], 1),
+        4 => ([b'*', 0, 0, 0], 1),
+        5 => ([b'/', 0, 0, 0], 1),
+        6 => ([0xC3, 0xA9, 0, 0], 2),       // U+00E9
+        7 => ([0xE2, 0x82, 0xAC, 0], 3),    // U+20AC
+        8 => ([0xF0, 0x9F, 0x98, 0x80], 4), // U+1F600
+        _ => ([0xC2, 0xA0, 0, 0], 2),       // U+00A0 no-break space (Unicode whitespace)
+    }
+}
+
+fn nonascii_step(first: &[u8], class: Class) {
+    let mut buf = [0u8; 16];
+    let mut len = 0;
+    let mut i = 0;
+    while i < first.len() {
+        buf[len] = first[i];
+        len += 1;
+        i += 1;
+    }
+    let nsym: usize = kani::any();
+    kani::assume(nsym <= 2);
+    let syms: [u8; 2] = kani::any();
+    let mut k = 0;
+    while k < 2 {
+        kani::assume(syms[k] < 10);
+        if k < nsym {
+            let (b, l) = menu_sym(syms[k]);
+            let mut j = 0;
+            while j < 4 {
+                if j < l {
+                    buf[len + j] = b[j];
+                }
+                j += 1;
+            }
+            len += l;
+        }
+        k += 1;
+    }
+    let text = unsafe { std::str::from_utf8_unchecked(&buf[..len]) };
+    let mut l = Lexer::new(text);
+    // routines are entered as the dispatch harness proves they are; a non-ASCII first
+    // character goes through the real next_token (the dispatch folds on the concrete char)
+    let kind = match class {
+        Class::Str => {
+            l.s.jump(1);
+            l.string()
+        }
+        Class::LineComment => {
+            l.s.jump(2);
+            l.line_comment()
+        }
+        Class::BlockComment => {
+            l.s.jump(2);
+            l.block_comment()
+        }
+        Class::Code => {
+            l.s.jump(2);
+            l.code_fragment()
+        }
+        Class::Hash => {
+            l.s.jump(1);
+            l.preprocessor()
+        }
+        _ => l.next_token(),
+    };
+    let end = l.s.cursor();
+    assert!(end <= len, "C01/C17: cursor inside the text");
+    assert!(text.is_char_boundary(end), "C01/C17: cursor on a char boundary");
+    assert!(end > 0 && kind != K::Eof, "C02: a token is produced and consumes input");
+    if kind == K::Error {
+        assert!(l.error.is_some(), "C02: Error token has a pending message");
+    }
+    kani::cover!(end >= 2, "W: a token of >= 2 bytes");
+}
+
+macro_rules! nonascii_harness {
+    ($name:ident, $first:expr, $class:expr) => {
+        #[kani::proof]
+        #[kani::unwind(14)]
+        #[kani::stub(crate::lexer::Lexer::error, crate::lexer::Lexer::verif_error_stub)]
+        fn $name() {
+            nonascii_step($first, $class);
+        }
+    };
+}
+
+// a non-ASCII FIRST character goes through char::is_whitespace / is_alphabetic (Unicode table
+// searches): measured 480 s per harness or out of memory, so those four (and `#` + non-ASCII
+// letters) are not registered; the native replay battery contains such inputs
+nonascii_harness!(c01c02c17_lex_na_2byte, &[0xC3, 0xA9], Class::Any);
+nonascii_harness!(c01c02c17_lex_na_3byte, &[0xE2, 0x82, 0xAC], Class::Any);
+nonascii_harness!(c01c02c17_lex_na_4byte, &[0xF0, 0x9F, 0x98, 0x80], Class::Any);
+nonascii_harness!(c01c02c17_lex_na_nbsp, &[0xC2, 0xA0], Class::Any);
+nonascii_harness!(c01c02c17_lex_na_string, b"\"", Class::Str);
+nonascii_harness!(c01c02c17_lex_na_line_comment, b"//", Class::LineComment);
+nonascii_harness!(c01c02c17_lex_na_block_comment, b"/*", Class::BlockComment);
+nonascii_harness!(c01c02c17_lex_na_code, b"[{", Class::Code);
+nonascii_harness!(c01c02c17_lex_na_hash, b"#", Class::Hash);
